@@ -75,7 +75,18 @@ def build_harness(ck):
     with ThreadPoolExecutor(max_workers=2) as ex:     # shared machine: at most 2 parallel compiles
         objs = list(ex.map(one, units))
     empty = ck.write("empty.cxx", "")
-    return ck.cxx("c53h", [empty], libs=objs + ck.libflags(*c48lib.LIBS), sanitize=True)
+    import time
+    for attempt in range(4):
+        try:
+            return ck.cxx("c53h", [empty], libs=objs + ck.libflags(*c48lib.LIBS), sanitize=True)
+        except vlib.BuildError as e:
+            # the shared libraries of the build tree may be in the middle of a relink by another check
+            if attempt == 3 or not any(w in e.log for w in ("file truncated", "file format not recognized",
+                                                            "cannot find -l", "undefined reference to",
+                                                            "No such file", "not found under")):
+                raise
+            ck.log("link failed (concurrent relink of the build tree?), retrying in 30 s")
+            time.sleep(30)
 
 
 # ----------------------------------------------------------------------------- exact helpers
